@@ -173,8 +173,18 @@ func configFuncFieldsRule(r *Run, pkg, owner string) {
 						return false
 					}
 					if st.Addr == ssa.Value(src) { // whole struct
-						isDef, _ := fromDefault(st.Val)
-						return isDef && inDefault[field]
+						if isDef, _ := fromDefault(st.Val); isDef && inDefault[field] {
+							return true
+						}
+						// the whole configuration handed back by a helper of the package that establishes the field (`cfg = fillDefaults(config[0])`)
+						if call, ok := st.Val.(*ssa.Call); ok {
+							if g := call.Call.StaticCallee(); g != nil && g.Pkg == cd.Pkg && len(g.Blocks) > 0 && depth < 3 {
+								if ok, _ := fnOK(g, depth+1); ok {
+									return true
+								}
+							}
+						}
+						return false
 					}
 					if fa, ok := st.Addr.(*ssa.FieldAddr); ok && fa.X == ssa.Value(src) {
 						if fv := fieldVar(fa.X.Type(), fa.Field); fv != nil && fieldOwner(fv)+"."+fv.Name() == field {
